@@ -21,7 +21,7 @@ use vstd::std_specs::cmp::OrdSpec;
 //@map /Mutex<NodeState>/ => VxSeqMutex<NodeState>
 //@map /&Arc<Node>/ => &VxArcNode
 //@map /\(ChannelId, Option<ChannelSlot>\)/ => (ChannelId, Option<VxSlotValue>)
-//@map /let mut node_state: MutexGuard<'_, NodeState> = self\.get_state\(\);/ => 
+//@map /let mut node_state(: MutexGuard<'_, NodeState>)? = self\.get_state\(\);/ => 
 //@map /(?<![\w.])node_state\./ => self.state.val.
 //@map /&node_state\b/ => &self.state.val
 //@map /self\.get_state\(\)\./ => self.state.val.
